@@ -309,6 +309,9 @@ impl PhoneticSuggestion {
 
                         // Save this for future reuse.
                         selections.insert(string.word().to_string(), selected.to_string());
+
+                        // One reading of the word is enough, another one would be appended to this.
+                        break;
                     }
                 }
             }
